@@ -55,6 +55,18 @@ class Scheduler:
         self.prio: dict[int, int] = {}
         self.change_points: set[int] = set()
         self.overlap_probe: Callable[[], None] | None = None
+        # strategy "stall": random walk, plus one or two long pre-emptions placed right after seeded *commits* - the
+        # worker that made that commit is held back for a seeded number of steps while the others run (the windows
+        # that matter lie between two commits of one handler: claim -> plan, result -> next message, ...)
+        self.stall_at: dict[int, int] = {}      # commit ordinal (since start) -> hold length in steps
+        self.hold: tuple[Worker, int] | None = None
+        self._commit_base = 0
+        self._commit_seen = 0
+        self.stalls = 0
+        self.stall_claims: dict[int, int] = {}
+        self.stall_focus: list[int] = []
+        self._claims_seen = 0
+        self._pending_hold: int | None = None
         world.sched = self
         world.busy_timeout_s = 0.0
 
@@ -182,6 +194,36 @@ class Scheduler:
         if self.strategy == "pct":
             horizon = 1500
             self.change_points = {self.ch.pick("pct.cp", horizon) for _ in range(self.pct_depth)}
+        if self.strategy == "stall":
+            if self.ch.pick("stall.kind", 2) == 0:
+                for _ in range(1 + self.ch.pick("stall.n", 2)):
+                    self.stall_at[1 + self.ch.pick("stall.commit", 90)] = self.ch.choice("stall.len", [15, 40, 100, 250, 600])
+            else:
+                # ... or right after the k-th *claim* of the run (a commit that makes a stage RUNNING): the worker sits
+                # between its claim commit and its plan commit while the others go on
+                self.stall_claims = {1 + self.ch.pick("stall.claim", 7): self.ch.choice("stall.len", [15, 40, 100, 250, 600])
+                                     for _ in range(1 + self.ch.pick("stall.n", 2))}
+                if self.stall_focus and self.ch.flip("stall.focus", 0.7):
+                    # the check knows which claim it cares about (e.g. the join stage's)
+                    self.stall_claims = {self.stall_focus[self.ch.pick("stall.focus.i", len(self.stall_focus))]:
+                                         self.ch.choice("stall.len", [40, 100, 250, 600])}
+                prev_hook = self.w.on_commit_hook
+
+                def hook(rec: Any) -> None:
+                    if prev_hook is not None:
+                        prev_hook(rec)
+                    if not self.stall_claims or self._me() is None:
+                        return
+                    n = self.w.hquery("SELECT count(*) AS c FROM sim_audit WHERE seq > ? AND seq <= ? AND kind = 'stage' "
+                                      "AND old = 'NOT_STARTED' AND new = 'RUNNING'", (rec.lo, rec.hi))[0]["c"]
+                    for _i in range(int(n)):
+                        self._claims_seen += 1
+                        ln = self.stall_claims.pop(self._claims_seen, None)
+                        if ln is not None:
+                            self._pending_hold = ln
+
+                self.w.on_commit_hook = hook
+        self._commit_base = self._commit_seen = self.w.commit_count
         for wk in self.workers:
             t = threading.Thread(target=self._thread_main, args=(wk,), daemon=True, name=f"sim-{wk.name}")
             wk.thread = t
@@ -220,6 +262,15 @@ class Scheduler:
             best = max(cands, key=lambda x: self.prio[x.wid])
             self.ch.pick("sched", 1)
             return best
+        if self.hold is not None:
+            hw, until_step = self.hold
+            if self.steps >= until_step or hw.state == "done":
+                self.hold = None
+            elif hw in cands and len(cands) > 1:
+                cands = [c for c in cands if c is not hw]
+                if len(cands) == 1:
+                    self.ch.pick("sched", 1)
+                    return cands[0]
         # random walk with a bias towards letting the current worker continue
         cur = self.current if self.current in cands else None
         order = ([cur] if cur else []) + [c for c in cands if c is not cur]
@@ -281,6 +332,20 @@ class Scheduler:
             if not self.parked.wait(REAL_WAIT_S):
                 self.stopping = True
                 raise RuntimeError(f"worker {nxt_w.name} did not yield within {REAL_WAIT_S}s (real time)")
+            if self._pending_hold is not None:
+                if nxt_w.state != "done":
+                    self.hold = (nxt_w, self.steps + self._pending_hold)
+                    self.stalls += 1
+                    w.probe("stall_after_claim")
+                self._pending_hold = None
+            if self.stall_at and w.commit_count != self._commit_seen:
+                for n in range(self._commit_seen + 1, w.commit_count + 1):
+                    ln = self.stall_at.pop(n - self._commit_base, None)
+                    if ln is not None and nxt_w.state != "done":
+                        self.hold = (nxt_w, self.steps + ln)
+                        self.stalls += 1
+                        w.probe("stall_after_commit")
+                self._commit_seen = w.commit_count
             if self.overlap_probe is not None:
                 self.overlap_probe()
 
